@@ -70,26 +70,133 @@ def build(repo, tier):
         fns.append((mod.replace('.', '/') + '.py', fn))
     # nary_app(symbol, n, cell): arbitrary symbol name, both cell settings; n is enumerated (bounded in n, see evidence)
     f = repo.func('proof_generation.proofs.kore', 'nary_app')
-    for n in range(0, 7):
+    for n in range(0, 13):
         for cell in (False, True):
             def mk(it, ctx, n=n, cell=cell):
                 sym = it.mk_pat('Symbol', [ctx.input('name', 'symbol')])
                 return it.run_function(f, [sym, n, cell])
             units.append(Unit(f'C19/notation/kore.nary_app(n={n},cell={cell})', notation_unit(repo, mk, 'nary_app'), use_lemmas=False))
-    fns.append(('proof_generation/proofs/kore.py', 'nary_app (n = 0..6, any symbol)'))
+    fns.append(('proof_generation/proofs/kore.py', 'nary_app (n = 0..12, any symbol)'))
     units.append(Unit('C19/py/Notation.print_instantiation', print_unit(repo), use_lemmas=False))
     units.append(Unit('C19/py/Notation.__call__', call_unit(repo), use_lemmas=False))
     for fmt in ('Binary', 'Pretty'):
         pass
     units.append(Unit('C19/py/ProofExp.serialize: same pipeline for binary and pretty', serialize_unit(repo), use_lemmas=False))
     fns += [(PFILE, 'Notation.print_instantiation'), (PFILE, 'Notation.__call__'), ('generation/src/proof_generation/proof.py', 'ProofExp.serialize')]
-    return PropSpec('C19', units, {}, {}, trusted=TRUSTED_ENGINE,
+    spec = PropSpec('C19', units, {}, {}, trusted=TRUSTED_ENGINE,
                     assumptions=PY_ASSUMPTIONS + [
                         'str.format semantics: placeholders are found with string.Formatter().parse on the format string in which symbolic pieces (str(var), symbol names) are brace-free',
                         'rendering of an argument is an opaque string; "printed differently" is decided up to the delimiters of the format string (str.format does not guarantee unambiguous concatenation)',
-                        'nary_app is checked for arities 0..6 (bounded in the arity only; symbol and cell flag arbitrary)',
-                        'one record per interpreter call is decided under C04/C14 (emission contracts); here: both output formats are driven by the same interpreter pipeline'],
+                        'nary_app is checked for arities 0..12, which includes two-digit placeholders (bounded in the arity only; symbol and cell flag arbitrary)',
+                        'binary side: one instruction per interpreter call is C04; pretty side: the decorator-generated methods of PrettyPrintingInterpreter are NOT under contract - one step per call and the step/instruction correspondence are decided by the bounded stand-in only'],
                     functions=fns)
+
+    def standin(tier, seed):
+        w, n = render_bounded(repo.root, tier, seed)
+        viol = []
+        if w is not None:
+            viol.append({'name': 'C19/bounded/rendering and step correspondence on the real code', 'status': 'refuted-bounded', 'backend': 'bounded run on the real code', 'model': None,
+                         'detail': w.get('failed_clause', ''), 'confirmed': True, 'replay': w})
+        return [{'bounded': {'kind': 'every shipped notation and nary_app of arity 0..14 (cell and non-cell) applied to arguments with pairwise distinct renderings: each argument the definition depends on '
+                                     'appears in the rendering; shipped modules and modules with long axioms / repeated large patterns serialised in both formats and optimise settings: the steps of '
+                                     'the pretty files (non-empty, non-indented lines) correspond one-to-one, in order, to the instructions of the binary files', 'programs': n, 'bound': f'seed {seed}'},
+                 'violations': viol}]
+    spec.extra_checks.append(standin)
+    spec.unit_bounded = lambda unit_name, tier, seed: render_bounded(repo.root, tier, seed)
+    return spec
+
+
+RENDER_PRELUDE = r"""
+import io, os, tempfile
+from pathlib import Path
+from proof_generation.instruction import Instruction
+from proof_generation.pattern import *
+from proof_generation.pattern import _and, _or
+from proof_generation.proof import OutputFormat, ProofExp
+from proof_generation.proofs.propositional import Propositional
+from proof_generation.proofs.small_theory import SmallTheory
+from proof_generation.proofs.substitution import Substitution, forall
+from proof_generation.proofs import definedness as D, kore as K
+
+ONE = (Instruction.EVar, Instruction.SVar, Instruction.Symbol, Instruction.Exists, Instruction.Mu, Instruction.ESubst, Instruction.SSubst, Instruction.CleanMetaVar,
+       Instruction.Generalization, Instruction.Load)
+
+def decode(data):
+    out, i = [], 0
+    while i < len(data):
+        ins = Instruction(data[i]); i += 1
+        if ins in ONE: i += 1
+        elif ins == Instruction.MetaVar:
+            i += 1
+            for _ in range(5): i += 1 + data[i]
+        elif ins == Instruction.Instantiate: i += 1 + data[i]
+        out.append('MetaVar' if ins == Instruction.CleanMetaVar else ins.name)
+    return out
+
+def steps(text):
+    return [l.split(' ')[0].split('=')[0] for l in text.split('\n') if l and not l.startswith('\t')]
+
+def notations():
+    out = [bot, neg, top, _and, _or, equiv, forall(3)]
+    for m, names in ((D, ['ceil', 'floor', 'subset', 'equals', 'functional']),
+                     (K, ['in_sort', 'kore_top', 'kore_not', 'kore_and', 'kore_or', 'kore_next', 'kore_implies', 'kore_rewrites', 'kore_dv', 'kore_ceil', 'kore_floor', 'kore_iff',
+                          'kore_equals', 'kore_kseq', 'kore_in', 'kore_bottom'])):
+        for n in names:
+            if hasattr(m, n): out.append(getattr(m, n))
+    out += [K.sorted_exists(2), K.kore_exists(2)]
+    for ar in range(0, 15):
+        for cell in (False, True):
+            out.append(K.nary_app(Symbol('ksym_f'), ar, cell))
+    return out
+
+def long_chain(n):
+    p = MetaVar(n)
+    for i in reversed(range(n)): p = Implies(MetaVar(i), p)
+    return p
+
+def _c19(seed):
+    done = 0
+    for nt in notations():
+        args = [Symbol('ARG%dX' % i) for i in range(nt.arity)]
+        opts = PrettyOptions(notations={nt.definition: nt})
+        shown = nt(*args).pretty(opts)
+        deps = nt.definition.metavars()
+        for i in sorted(deps):
+            if str(args[i].pretty(opts)) not in shown:
+                return ('fail', 'notation %s/%d: argument %d, on which the definition depends, is not shown: %r' % (nt.label, nt.arity, i, shown), done)
+            done += 1
+    big = App(App(Symbol('cfg'), long_chain(12)), long_chain(14))
+    la = ProofExp(axioms=[long_chain(30)], claims=[long_chain(30)])
+    la._proof_expressions = [la.load_axiom(la._axioms[0])]
+    bc = ProofExp(axioms=[Implies(big, big), Implies(big, Implies(big, big))], claims=[])
+    for name, mod in (('Propositional', Propositional()), ('SmallTheory', SmallTheory()), ('Substitution', Substitution()), ('LongAxiom', la), ('BigConfiguration', bc)):
+        for opt in (False, True):
+            with tempfile.TemporaryDirectory() as d:
+                mod.serialize(Path(d) / 'b', OutputFormat.Binary, opt)
+                mod.serialize(Path(d) / 'p', OutputFormat.Pretty, opt)
+                import gc; gc.collect()
+                for ph in ('gamma', 'claim', 'proof'):
+                    ins = decode((Path(d) / ('b.ml-' + ph)).read_bytes())
+                    st = steps((Path(d) / ('p.pretty-' + ph)).read_text())
+                    if ins != st:
+                        k = next((i for i, (a, b) in enumerate(zip(ins, st)) if a != b), min(len(ins), len(st)))
+                        return ('fail', '%s optimize=%s %s: %d instructions vs %d pretty steps; first mismatch at #%d: %s vs %s' %
+                                (name, opt, ph, len(ins), len(st), k, ins[k] if k < len(ins) else '-', st[k][:40] if k < len(st) else '-'), done)
+                    done += len(ins)
+    return ('ok', done)
+"""
+
+
+def render_bounded(root, tier, seed):
+    from vc import replay as rp
+    jobs = [{'expr': f'_c19({seed})'}]
+    real = rp.run_real(jobs, prelude=RENDER_PRELUDE, root=root, timeout=1500)[0]
+    if not real['ok']:
+        return {'expr': jobs[0]['expr'], 'real': real, 'failed_clause': 'bounded driver raised: ' + str(real.get('exc'))}, 0
+    d = rp.repr_to_data(real['repr'])
+    if d[0] == 'tuple' and d[1] == 'ok':
+        return None, d[2]
+    return {'expr': jobs[0]['expr'], 'real': real, 'failed_clause': str(d[2])}, (d[3] if len(d) > 3 else 0)
 
 
 def print_unit(repo):
